@@ -222,12 +222,12 @@ MANIFEST_TEXT["C16"] = {
 
 PROPS["C10"] = {
     "project": strip_cls,
-    "rule": "crash-only oracle (any panic; any call not returned after 5 s) over: the complete C09 generator (abi.QuoteToProto on every truncation, size-field boundary pairs, mutants; QuoteToAbiBytes / CheckQuoteV4 / sub-serialisers on structural message mutants), the C08 generator (validate.TdxQuote on option variants and structural mutants), the C13 generator (pcs.PckCertificateExtensions on malformed and mutated DER), the C18 generator (GetRtmrsFromTdQuote, ParseCcelWithTdQuote), plus verify.RawTdxQuote / validate.RawTdxQuote on truncations and mutants of the Intel sample, nil / typed-nil / wrong-type arguments for every entry point, structurally arbitrary messages and arbitrary certificate-chain bytes through verify.TdxQuote and ExtractChainFromQuote, arbitrary TCB-Info / QE-Identity bodies (empty, non-JSON, wrong shape, null members, huge numbers, bad hex, unknown status, deep nesting, byte mutants of a genuine body), every issuer-chain header fault, garbage / failing / very large CRLs; non-trivial = every case; distinct by case line",
+    "rule": "crash-only oracle (any panic; any call not returned after 30 s) over: the complete C09 generator (abi.QuoteToProto on every truncation, size-field boundary pairs, mutants; QuoteToAbiBytes / CheckQuoteV4 / sub-serialisers on structural message mutants), the C08 generator (validate.TdxQuote on option variants and structural mutants), the C13 generator (pcs.PckCertificateExtensions on malformed and mutated DER), the C18 generator (GetRtmrsFromTdQuote, ParseCcelWithTdQuote), plus verify.RawTdxQuote / validate.RawTdxQuote on truncations and mutants of the Intel sample, nil / typed-nil / wrong-type arguments for every entry point, structurally arbitrary messages and arbitrary certificate-chain bytes through verify.TdxQuote and ExtractChainFromQuote, arbitrary TCB-Info / QE-Identity bodies (empty, non-JSON, wrong shape, null members, huge numbers, bad hex, unknown status, deep nesting, byte mutants of a genuine body), every issuer-chain header fault, garbage / failing / very large CRLs; non-trivial = every case; distinct by case line",
     "trusted_base": ["panics or hangs INSIDE encoding/pem, crypto/x509, encoding/json, encoding/asn1, protobuf and go-eventlog on adversarial bytes are only explored (recover + watchdog), not proved; the proved part is every slice, index, type assertion and dereference the repository's own code performs, as modelled"],
     "assumptions": ["SHA-256 returns 32 bytes (hypothesis of verify_TdxQuote_never_panics)"],
 }
 MANIFEST_TEXT["C10"] = {
-    "text": "One Lean theorem per public entry point, each for every input: QuoteToProto (all byte strings), QuoteToAbiBytes / CheckQuoteV4 / the three sub-serialisers (all messages incl. nil), validate.TdxQuote and RawTdxQuote (all messages, all options), verify.TdxQuote and RawTdxQuote (all messages, all worlds of decoded chain / collateral / CRL / header facts, all options), ExtractChainFromQuote, PckCertificateExtensions (all decoded trees), GetRtmrsFromTdQuote; model functions are structurally recursive (no fuel); witnesses for F1, F2, F7, F12. The models carry a panic outcome at every slice / index / type assertion / nil dereference of the repository's own code; the correspondence re-runs all adversarial generators under a crash-only oracle with a 5 s watchdog.",
+    "text": "One Lean theorem per public entry point, each for every input: QuoteToProto (all byte strings), QuoteToAbiBytes / CheckQuoteV4 / the three sub-serialisers (all messages incl. nil), validate.TdxQuote and RawTdxQuote (all messages, all options), verify.TdxQuote and RawTdxQuote (all messages, all worlds of decoded chain / collateral / CRL / header facts, all options), ExtractChainFromQuote, PckCertificateExtensions (all decoded trees), GetRtmrsFromTdQuote; model functions are structurally recursive (no fuel); witnesses for F1, F2, F7, F12. The models carry a panic outcome at every slice / index / type assertion / nil dereference of the repository's own code; the correspondence re-runs all adversarial generators under a crash-only oracle with a 30 s watchdog.",
     "note": "Partial: crashes or hangs inside the standard library, protobuf or go-eventlog on adversarial bytes are only explored. Trusted: Lean kernel, extractor, harness.",
     "technique": "Lean 4 proof (panic-carrying Go-faithful models) + crash-only differential exploration",
 }
@@ -389,3 +389,26 @@ MANIFEST_TEXT["C07"] = {
 for _p in ("C01", "C02", "C03", "C04", "C05", "C06", "C07", "C11", "C12"):
     PROPS[_p]["tie_modules"] = ["TdxProofs.Example.NonVacuity"]
     PROPS[_p]["tie_theorems"] = ["Tdx.Example.accepted_base", "Tdx.Example.accepted_collateral", "Tdx.Example.accepted_revocation"]
+
+# ---- generator families added after the seeded-change rounds (appended to the rule texts that go into the evidence)
+_RULE_ADDENDA = {
+    "C01": "; every single-bit mutant is also put, as a byte string, to verify.RawTdxQuote; forgery kinds with 16-bit numbers carrying high bits after signing",
+    "C02": "; trusted-roots transitions through one shared options value (pair histories); root-of-trust configurations on worlds around the wall clock with the produced options value used exactly as returned; a caller extending the pool of its own default options followed by a nil-pool verification of a foreign chain; both Intel samples with the carried root replaced by an in-date look-alike (same DN, serial, validity)",
+    "C04": "; module versions whose hex / decimal / upper-case spellings differ, decoy identities under those spellings",
+    "C05": "; a foreign CA with the intermediate's DN served in the CRL's own issuer-chain header; two trusted roots with the same name (collateral and Root CA CRL under the other one); a re-issued, revoked certificate of the TCB signer signing the QE Identity; the same world verified again after an endpoint serves a forged CRL with the same CRL number; level-transition pair histories",
+    "C06": "; TCB Info and QE Identity under one shared issuer chain judged at both times; Options.Now inspected after 9 call outcomes x 3 levels with no time given; options converted from a root-of-trust configuration must carry no time",
+    "C07": "; ISVSVN / ISVPRODID with high bits added after signing (judged by the signed 16-bit value)",
+    "C09": "; after every accepted parse the input buffer is overwritten and the parsed quote serialised again",
+    "C10": "; every member of a genuine TCB Info / QE Identity body replaced by every other kind of JSON value (numbers, booleans, null, one-character scalars, objects, arrays)",
+    "C11": "; earlier non-matching levels that are below the platform in other components; honest pair histories through one options value",
+    "C12": "; 40 fault kinds in turn incl. an expired carried root re-issued in the pool; systematic pair histories (levels x same/other world x trusted-roots transitions)",
+    "C13": "; 16 goroutines extracting from 48 certificates concurrently, every result compared with the encoded values",
+    "C15": "; unsupported provider with an openable non-device path (the device's failure must be returned); GetQuote on raw quotes ending in zero bytes",
+    "C16": "; a message with SignedDataSize unset; a cold-start worker (first concurrent verifications of a fresh process, embedded root)",
+    "C17": "; indexes around 2^8, 2^16, 2^32, 2^63 whose low bits are a valid index; a TSM that reports an error on the digest write of a valid request, after or without extending the register (exactly one digest write, error returned)",
+    "C18": "; every verification fault x {collateral, collateral+revocation} x {all endpoints reachable, TCB Info / QE Identity / PCK CRL / Root CRL unavailable, PCK CRL garbage}; seven default option sets alive at once",
+    "C19": "; the expected class of the root of trust is computed by the harness itself (exactly the listed certificates; embedded root when nothing is listed), not by verify.RootOfTrustToOptions",
+    "C20": "; response headers with non-canonical keys, keys differing only in case and an empty value list; two DefaultHTTPSGetter() instances must be independent and carry the documented 2 min / 30 s",
+}
+for _p, _t in _RULE_ADDENDA.items():
+    PROPS[_p]["rule"] = PROPS[_p]["rule"] + _t
